@@ -6,20 +6,26 @@
 #include <trompeloeil.hpp>
 
 struct vf_reported {};
-struct vf_report { int fatal; char const *file; unsigned long line; unsigned mask; };
-#define VF_MAXREP 8
+// The recording reporter keeps only scalars (count, first and last report): an array indexed by a symbolic
+// counter would be expanded element-wise by the symbolic executor on every merged path.
+struct vf_report { int fatal; char const *file; unsigned long line; unsigned mask; unsigned long ord; unsigned nmask; };
 #define VF_MAXNEEDLE 8
-static vf_report   vf_reports[VF_MAXREP];
-static unsigned    vf_nreports;
-static char const *vf_ok_names[VF_MAXREP]; // texts the harness wants OK reports classified against
+static vf_report   vf_first, vf_last;      // first and most recent violation report
+static unsigned    vf_nreports, vf_nfatal;
+static char const *vf_ok_names[4];         // texts the harness wants OK reports classified against
 static unsigned    vf_nok_names;
-static int         vf_ok_idx[VF_MAXREP];   // per OK report: index of the registered text it carries, or -1
+static int         vf_ok_last = -2;        // last OK report: index of the registered text it carries, -1 if none of them
 static unsigned    vf_nok;
-static char const *vf_needles[VF_MAXNEEDLE];
-static unsigned    vf_nneedles;
-static unsigned    vf_lock_at_report;      // unused natively
+static unsigned    vf_nneedles, vf_nnums;  // watched strings / numbers registered through vf_needle / vf_num
+static bool        vf_want_ord;            // compute vf_report::ord (quadratic in the number of watched strings)
+static unsigned    vf_seq;                 // global event counter: reports, OK reports and harness log share one order
+static unsigned    vf_first_seq, vf_last_seq, vf_ok_seq;
 
-inline unsigned vf_needle(char const *s) { vf_needles[vf_nneedles] = s; return 1u << vf_nneedles++; }
+// register a watched string / number; returns its bit in vf_report::mask / nmask
+inline unsigned vf_needle(char const *s) { unsigned i = verif_watch_str(s); vf_nneedles = i + 1; return 1u << i; }
+inline unsigned vf_num(unsigned long v) { unsigned i = verif_watch_num(v); vf_nnums = i + 1; return 1u << i; }
+// bit of "watched string i first occurs before watched string j" in vf_report::ord
+inline unsigned long vf_ord(unsigned i, unsigned j) { return 1ul << (i * 8 + j); }
 
 namespace trompeloeil {
 template <>
@@ -27,25 +33,29 @@ struct reporter<specialized>
 {
   static void send(severity s, char const *file, unsigned long line, char const *msg)
   {
-    unsigned mask = 0;
+    unsigned mask = 0, nmask = 0; unsigned long ord = 0;
     for (unsigned i = 0; i < vf_nneedles; ++i)
-      if (verif_msg_has(msg, vf_needles[i])) mask |= 1u << i;
-    if (vf_nreports < VF_MAXREP)
     {
-      vf_reports[vf_nreports].fatal = s == severity::fatal;
-      vf_reports[vf_nreports].file = file;
-      vf_reports[vf_nreports].line = line;
-      vf_reports[vf_nreports].mask = mask;
+      if (verif_msg_cnt(msg, i) != 0) mask |= 1u << i;
+      if (vf_want_ord)
+        for (unsigned j = 0; j < vf_nneedles; ++j)
+          if (i != j && verif_msg_before(msg, i, j)) ord |= vf_ord(i, j);
     }
+    for (unsigned i = 0; i < vf_nnums; ++i)
+      if (verif_msg_ncnt(msg, i) != 0) nmask |= 1u << i;
+    vf_last.fatal = s == severity::fatal; vf_last.file = file; vf_last.line = line; vf_last.mask = mask; vf_last.ord = ord; vf_last.nmask = nmask;
+    vf_last_seq = ++vf_seq;
+    if (vf_nreports == 0) { vf_first = vf_last; vf_first_seq = vf_last_seq; }
     ++vf_nreports;
-    if (s == severity::fatal) throw vf_reported{};
+    if (s == severity::fatal) { ++vf_nfatal; throw vf_reported{}; }
   }
   static void sendOk(char const *msg)
   {
     int idx = -1;   // msg points into a temporary: classify now
     for (unsigned i = 0; i < vf_nok_names; ++i)
       if (idx < 0 && verif_str_eq(msg, vf_ok_names[i])) idx = (int)i;
-    if (vf_nok < VF_MAXREP) vf_ok_idx[vf_nok] = idx;
+    vf_ok_last = idx;
+    vf_ok_seq = ++vf_seq;
     ++vf_nok;
   }
 };
